@@ -421,4 +421,334 @@ theorem wstep {fl : Flags} (hg : fl.readyGuarded = true) (hf : fl.resubmitRegist
         refine key _ (good_edit hG hsb hL) (mu_edit hsb) rfl ?_
         simp only [deliverA, setCode, put_nil_eq, St.apply, edit_threads, hk]
 
+/-! ### runs of the second scheduler -/
+
+/-- a run of enabled world events (callbacks, helper-thread completions, process moves) that adopts nothing. -/
+def RunW (fl : Flags) : W → List WEv → Prop
+  | _, [] => True
+  | w, e :: es => WEnabled w e ∧ NoAdoptAt w e ∧ RunW fl (w.apply fl e) es
+
+theorem runW_bound {fl : Flags} (hg : fl.readyGuarded = true) (hf : fl.resubmitRegisters = true)
+    (ha : fl.abortRechecks = true) (hrel : fl.abortReleases = true) {totals : List Nat} {done0 : Nat → Bool}
+    (evs : List WEv) : ∀ w, WReach fl totals done0 w → Good fl w.a.s → RunW fl w evs →
+      WReach fl totals done0 (W.run fl w evs) ∧ Good fl (W.run fl w evs).a.s ∧
+      evs.length + wmu (W.run fl w evs) ≤ wmu w := by
+  induction evs with
+  | nil => intro w hW hG _; exact ⟨hW, hG, by simp [W.run]⟩
+  | cons e es ih =>
+    intro w hW hG hrun
+    obtain ⟨hen, hna, hrest⟩ := hrun
+    obtain ⟨hG', hlt⟩ := wstep hg hf ha hrel hW hG e hen hna
+    obtain ⟨r1, r2, r3⟩ := ih (w.apply fl e) (hW.apply e) hG' hrest
+    refine ⟨r1, r2, ?_⟩
+    simp only [W.run, List.length_cons]
+    omega
+
+/-! ### the re-submission phase of a restarted scheduler that finds no live process is a run of M2 -/
+
+/-- no pid file names a live process. -/
+def NoLivePid (d : Disk) : Prop := ∀ i p, (d.dir i).pid = some p → d.alive p = false
+
+/-- what holds while the restarted scheduler only takes submissions (no helper thread completes, no process moves):
+    the disk is the one found at the restart, nothing has been adopted, no `resume` callback exists, and every
+    submitted record carries the marker its directory shows. -/
+structure Phase (d0 : Disk) (a : StA Disk) : Prop where
+  disk : a.d = d0
+  adopted : a.adopted = fun _ => false
+  ctl : Restart.InvB a
+  inv1 : Inv1 a.s
+  nores : ∀ j, Restart.cRes a.s j = 0
+  mark : ∀ j, j < a.s.n → (a.s.jobs j).marker = (d0.dir (a.s.jobs j).ident).done
+
+theorem count_resume_append_zero {l app : List Cb} (j : Nat) (h1 : l.count (Cb.resume j) = 0)
+    (h2 : app.count (Cb.resume j) = 0) : (l ++ app).count (Cb.resume j) = 0 := by
+  simp [List.count_append, h1, h2]
+
+theorem phase_stepA (fl : Flags) (d0 : Disk) (hnl : NoLivePid d0) (a : StA Disk) (h : Phase d0 a) :
+    stepA fl world a = { a with s := a.s.step fl } ∧ Phase d0 (stepA fl world a) := by
+  cases hr : a.s.ready with
+  | nil =>
+    have e : stepA fl world a = a := by unfold stepA; rw [hr]
+    have e2 : a.s.step fl = a.s := by unfold St.step; rw [hr]
+    rw [e, e2]; exact ⟨rfl, h⟩
+  | cons cb rest =>
+    have hpop := Restart.pop_inv h.ctl.1 hr
+    have hstep : a.s.step fl = St.runCb fl ({ a.s with ready := rest } : St) cb := by unfold St.step; rw [hr]
+    -- the callback run by the world scheduler is the M2 callback
+    have heq : stepA fl world a = { a with s := a.s.step fl } := by
+      rw [stepA_cons fl world a cb rest hr, hstep]
+      cases cb with
+      | start j =>
+        have hpc := head_start_pc (s := a.s) h.inv1 hr
+        have hjn : j < a.s.n := by
+          apply Classical.byContradiction; intro hn
+          have := (h.inv1 j).2.2.2 (by omega)
+          rw [hpc] at this; simp [pcKind] at this
+        have hna : (world.look a.d j (a.s.jobs j)).adopt = false := by
+          simp only [world]
+          rw [h.disk]
+          cases hp : (d0.dir (a.s.jobs j).ident).pid with
+          | none => rfl
+          | some p => exact hnl _ p hp
+        have hmk : (world.look a.d j (a.s.jobs j)).marker = (a.s.jobs j).marker := by
+          show (a.d.dir (a.s.jobs j).ident).done = _
+          rw [h.disk, h.mark j hjn]
+        have hna' : (world.look a.d j (({ a.s with ready := rest } : St).jobs j)).adopt = false := hna
+        simp only [runCbA, hna', Bool.false_eq_true, if_false, startJobA]
+        have hmk' : (world.look a.d j (({ a.s with ready := rest } : St).jobs j)).marker =
+            (({ a.s with ready := rest } : St).jobs j).marker := hmk
+        rw [hmk']
+        have : ({ a.s with ready := rest } : St).put j
+            { (({ a.s with ready := rest } : St).jobs j) with marker := (({ a.s with ready := rest } : St).jobs j).marker }
+            = ({ a.s with ready := rest } : St) := Restart.put_self _ j
+        rw [this]; rfl
+      | resume j =>
+        exfalso
+        have := h.nores j
+        simp [Restart.cRes, hr] at this
+      | register j => rfl
+      | wake j => rfl
+      | check j d => rfl
+      | notifyCheck j d => rfl
+      | waiterRun => rfl
+    refine ⟨heq, ?_⟩
+    rw [heq]
+    have hctl := Restart.stepA_invB fl world a h.ctl
+    rw [heq] at hctl
+    refine ⟨h.disk, h.adopted, hctl, step_inv1 fl a.s h.inv1, ?_, ?_⟩
+    · -- no `resume` callback is ever queued by a callback
+      intro j
+      have hrest : rest.count (Cb.resume j) = 0 := by
+        have := h.nores j
+        simp only [Restart.cRes, hr, List.count_cons] at this
+        omega
+      show (a.s.step fl).ready.count (Cb.resume j) = 0
+      rw [hstep]
+      by_cases hreg : ∃ i, cb = .register i
+      · obtain ⟨i, rfl⟩ := hreg
+        simp only [St.runCb]
+        rw [(Restart.register_same fl _ i).2.1]; exact hrest
+      · have hgl := Restart.runCbA_glob fl world ({ a with s := { a.s with ready := rest } }) cb hpop
+          (fun i e => hreg ⟨i, e⟩)
+        obtain ⟨app, happ, hc⟩ := hgl.ready
+        have e1 : (runCbA fl world ({ a with s := { a.s with ready := rest } }) cb).s = St.runCb fl ({ a.s with ready := rest } : St) cb := by
+          have := heq
+          rw [stepA_cons fl world a cb rest hr, hstep] at this
+          rw [this]
+        rw [e1] at happ
+        rw [happ]
+        exact count_resume_append_zero j hrest (hc j).2
+    · intro j hj
+      have hM := runCb_mono fl a.s cb rest h.inv1 hr
+      have hF := runCb_frame fl ({ a.s with ready := rest } : St) cb
+      rw [hstep] at hj ⊢
+      rw [hM.n] at hj
+      by_cases hjt : j = target cb
+      · subst hjt
+        rw [hF.2.2.2.2.2.2.2.1, hF.2.2.2.2.2.1]
+        exact h.mark _ hj
+      · rw [hF.2.2.2.2.1 j hjt]; exact h.mark j hj
+
+theorem phase_stepsA (fl : Flags) (d0 : Disk) (hnl : NoLivePid d0) (k : Nat) : ∀ (a : StA Disk), Phase d0 a →
+    stepsA fl world a k = { a with s := St.steps fl a.s k } ∧ Phase d0 (stepsA fl world a k) := by
+  induction k with
+  | zero => intro a h; exact ⟨rfl, h⟩
+  | succ k ih =>
+    intro a h
+    obtain ⟨e1, h1⟩ := phase_stepA fl d0 hnl a h
+    obtain ⟨e2, h2⟩ := ih _ h1
+    simp only [stepsA, St.steps]
+    rw [e1] at e2 h2 ⊢
+    exact ⟨e2, h2⟩
+
+theorem submitPre_s (a : StA Disk) (ident : Nat) (deps : List Origin) (code : Nat) (marker : Bool) :
+    (Restart.submitPre a (Restart.newJob a.s ident deps code marker)).s = SchedFinal.submitPre a.s ident deps code marker := rfl
+
+theorem submitPost_s (a : StA Disk) (j : Nat) :
+    Restart.submitPost a j = { a with s := SchedFinal.submitPost a.s j } := by
+  obtain ⟨s, ad, d⟩ := a
+  obtain ⟨n, jobs, eff, ntok, total, avail, tokDeps, jobDeps, registry, unfinished, failed, ready, threads, waiter, rr⟩ := s
+  unfold Restart.submitPost SchedFinal.submitPost
+  cases rr with
+  | none => rfl
+  | some o => cases o <;> rfl
+
+/-- a submission taken by a restarted scheduler that finds no live process, with the marker its directory shows, is the
+    submission of M2. -/
+theorem phase_submit (fl : Flags) (d0 : Disk) (hnl : NoLivePid d0) (a : StA Disk) (h : Phase d0 a)
+    (ident : Nat) (deps : List Origin) (code : Nat) (marker : Bool) (hm : marker = (d0.dir ident).done) :
+    applyA fl world a (.submit ident deps code marker) = { a with s := a.s.apply fl (.submit ident deps code marker) } ∧
+    Phase d0 (applyA fl world a (.submit ident deps code marker)) := by
+  have hpre : Phase d0 (Restart.submitPre a (Restart.newJob a.s ident deps code marker)) := by
+    refine ⟨h.disk, h.adopted, Restart.submitPre_invB a h.ctl _ ⟨rfl, rfl, rfl⟩, ?_, ?_, ?_⟩
+    · rw [submitPre_s]; exact submitPre_inv1 a.s ident deps code marker h.inv1
+    · intro j
+      have := h.nores j
+      simp only [Restart.cRes, Restart.submitPre, List.count_append] at this ⊢
+      simp [this]
+    · intro j hj
+      have hj' : j < a.s.n + 1 := hj
+      by_cases hjn : j = a.s.n
+      · subst hjn
+        simp only [Restart.submitPre, SchedFinal.upd_same]
+        exact hm
+      · simp only [Restart.submitPre, upd, hjn, if_false]
+        exact h.mark j (by omega)
+  obtain ⟨e2, h2⟩ := phase_stepsA fl d0 hnl (a.s.ready.length + 1) _ hpre
+  have heq : applyA fl world a (.submit ident deps code marker) =
+      { a with s := a.s.apply fl (.submit ident deps code marker) } := by
+    simp only [applyA]
+    rw [e2, submitPost_s, apply_submit]
+    rfl
+  refine ⟨heq, ?_⟩
+  have hctl := Restart.applyA_invB fl world a (.submit ident deps code marker) h.ctl
+  rw [heq] at hctl ⊢
+  refine ⟨h.disk, h.adopted, hctl, apply_inv1 fl a.s _ h.inv1, ?_, ?_⟩
+  · -- the queue after `submitPost`
+    rw [e2] at h2
+    have hn2 := h2.nores
+    intro j
+    show ((a.s.apply fl (.submit ident deps code marker)).ready).count (Cb.resume j) = 0
+    rw [apply_submit]
+    have := hn2 j
+    simp only [Restart.cRes, submitPre_s] at this
+    unfold SchedFinal.submitPost
+    split
+    · exact this
+    · simp only [put_ready, List.count_append, this]; simp
+  · rw [e2] at h2
+    have hm2 := h2.mark
+    simp only [submitPre_s] at hm2
+    intro j hj
+    rw [apply_submit] at hj ⊢
+    rw [submitPost_n] at hj
+    by_cases hjn : j = a.s.n
+    · subst hjn
+      have := hm2 _ hj
+      unfold SchedFinal.submitPost
+      split
+      · exact this
+      · simp only [put_jobs, SchedFinal.upd_same]; exact this
+    · rw [submitPost_jobs_ne _ _ _ hjn]; exact hm2 j hj
+
+/-! ### who owns the pid files: with distinct identifiers, a scheduler that found no live process adopts nothing -/
+
+/-- the job set, the identifiers, and the launched jobs are kept. -/
+structure SameIds (s s' : St) : Prop where
+  n : s'.n = s.n
+  ident : ∀ i, (s'.jobs i).ident = (s.jobs i).ident
+  launched : ∀ i, (s.jobs i).launches = 1 → (s'.jobs i).launches = 1
+
+theorem SameIds.trans {a b c : St} (h1 : SameIds a b) (h2 : SameIds b c) : SameIds a c :=
+  ⟨h2.n.trans h1.n, fun i => (h2.ident i).trans (h1.ident i), fun i h => h2.launched i (h1.launched i h)⟩
+
+theorem sameIds_edit {s : St} {j : Nat} {jb' : Job} (h : SameBut (s.jobs j) jb') : SameIds s (edit s j jb') := by
+  have hall := edit_sameBut_all (s := s) (j := j) (jb' := jb') h
+  exact ⟨rfl, fun i => (hall i).ident, fun i hl => by rw [(hall i).launches]; exact hl⟩
+
+theorem resume_launches_late (fl : Flags) (s : St) (j : Nat)
+    (h : (s.jobs j).pc = .lockExitRun ∨ (s.jobs j).pc = .codeWait ∨ (s.jobs j).pc = .doneHandler) :
+    ((s.resume fl j).jobs j).launches = (s.jobs j).launches := by
+  rcases h with hp | hp | hp
+  · simp only [St.resume, hp]; simp [jobs_put]
+  · have hb := releaseAll_bg j (s.jobs j).held s
+    have e : s.resume fl j =
+        (let s1 := s.releaseAll j (s.jobs j).held
+         (s1.put j { (s1.jobs j) with state := if (s1.jobs j).code = 0 then .done else .error }).finish j) := by
+      simp only [St.resume, hp]
+    rw [e]
+    simp only []
+    have h1 := (view_fields (hb.view j)).2.1
+    generalize s.releaseAll j (s.jobs j).held = s1 at *
+    have hv := congrArg View.launches
+      (view_finish (s1.put j { (s1.jobs j) with state := if (s1.jobs j).code = 0 then .done else .error }) j j)
+    simp only [view, if_true, jobs_put] at hv
+    rw [hv, h1]
+  · simp only [St.resume, hp]
+    split <;> simp [jobs_put]
+
+/-- a callback of M2 keeps the job set, the identifiers and the launched jobs. -/
+theorem sameIds_runCb (fl : Flags) (s : St) (cb : Cb) (rest : List Cb) (hI : Inv1 s) (hJ : JL s)
+    (hr : s.ready = cb :: rest) : SameIds s (({ s with ready := rest } : St).runCb fl cb) := by
+  have hF := runCb_frame fl ({ s with ready := rest } : St) cb
+  obtain ⟨fn, _, _, _, fj, fc⟩ := hF
+  refine ⟨fn, ?_, ?_⟩
+  · intro i
+    by_cases hi : i = target cb
+    · subst hi; exact fc.1
+    · rw [fj i hi]
+  · intro i hl
+    by_cases hi : i = target cb
+    · subst hi
+      have hearly : pcEarly (s.jobs (target cb)).pc = true → False := by
+        intro he
+        have := (hJ (target cb)).2.2.1 he
+        omega
+      by_cases hc : Restart.plainCb cb = true
+      · have hv := (runCb_plain_frame fl cb hc ({ s with ready := rest } : St) (target cb)).1
+        rw [(view_fields hv).2.1]; exact hl
+      · cases cb with
+        | start j => exact absurd (by rw [show target (Cb.start j) = j from rfl, head_start_pc hI hr]; rfl) hearly
+        | wake j => exact absurd (by rw [show target (Cb.wake j) = j from rfl, head_wake_pc hI hr]; rfl) hearly
+        | resume j =>
+          have hk := head_resume_kind hI hr
+          have hl' : (s.jobs j).launches = 1 := hl
+          have hearly' : pcEarly (s.jobs j).pc = true → False := hearly
+          show ((({ s with ready := rest } : St).resume fl j).jobs j).launches = 1
+          rw [resume_launches_late fl _ j ?_]
+          · exact hl'
+          · show (s.jobs j).pc = .lockExitRun ∨ (s.jobs j).pc = .codeWait ∨ (s.jobs j).pc = .doneHandler
+            revert hk hearly'
+            cases (s.jobs j).pc <;> simp [pcKind, pcEarly]
+        | register j => simp [Restart.plainCb] at hc
+        | check j d => simp [Restart.plainCb] at hc
+        | notifyCheck j d => simp [Restart.plainCb] at hc
+        | waiterRun => simp [Restart.plainCb] at hc
+    · rw [fj i hi]; exact hl
+
+/-- every pid file that names a live process belongs to a job this scheduler has launched. -/
+def PidOwn (s : St) (d : Disk) : Prop :=
+  ∀ i p, (d.dir i).pid = some p → d.alive p = true →
+    ∃ j, j < s.n ∧ (s.jobs j).ident = i ∧ (s.jobs j).launches = 1
+
+/-- the submitted jobs have pairwise distinct identifiers. -/
+def UniqId (s : St) : Prop := ∀ j j', j < s.n → j' < s.n → (s.jobs j).ident = (s.jobs j').ident → j = j'
+
+theorem uniqId_same {s s' : St} (h : SameIds s s') (hu : UniqId s) : UniqId s' := by
+  intro j j' hj hj' he
+  rw [h.n] at hj hj'
+  rw [h.ident, h.ident] at he
+  exact hu j j' hj hj' he
+
+theorem pidOwn_same {s s' : St} {d d' : Disk} (h : SameIds s s') (ho : PidOwn s d)
+    (hd : ∀ i p, (d'.dir i).pid = some p → d'.alive p = true → (d.dir i).pid = some p ∧ d.alive p = true) :
+    PidOwn s' d' := by
+  intro i p hp ha
+  obtain ⟨h1, h2⟩ := hd i p hp ha
+  obtain ⟨j, hj, hi, hl⟩ := ho i p h1 h2
+  exact ⟨j, by rw [h.n]; exact hj, by rw [h.ident]; exact hi, h.launched j hl⟩
+
+/-- with distinct identifiers and owned pid files, the first segment of a job finds no live process. -/
+theorem noAdopt_of_own {fl : Flags} {a : StA Disk} (hG : Good fl a.s) (ho : PidOwn a.s a.d) (hu : UniqId a.s)
+    (j : Nat) (rest : List Cb) (hr : a.s.ready = .start j :: rest) :
+    (world.look a.d j (a.s.jobs j)).adopt = false := by
+  have hpc := head_start_pc (s := a.s) hG.e.c.a.ctl hr
+  have hl0 : (a.s.jobs j).launches = 0 := (hG.e.c.a.loc j).2.2.1 (by rw [hpc]; rfl)
+  have hjn : j < a.s.n := by
+    apply Classical.byContradiction; intro hn
+    have := hG.e.c.a.blank j (by omega)
+    rw [hpc] at this; cases this
+  show (match (a.d.dir (a.s.jobs j).ident).pid with | some p => a.d.alive p | none => false) = false
+  cases hpid : (a.d.dir (a.s.jobs j).ident).pid with
+  | none => rfl
+  | some p =>
+    show a.d.alive p = false
+    cases hal : a.d.alive p with
+    | false => rfl
+    | true =>
+      obtain ⟨j', hj', hi', hl'⟩ := ho _ p hpid hal
+      have := hu j' j hj' hjn hi'
+      subst this
+      omega
+
 end XpmVerif.RestartTerm
